@@ -11,8 +11,9 @@ RULE = ("Hypothesis-generated envelope histories (one-sided, or two-sided disjoi
         "step interleaving).  main: 1-2 crash arms placed anywhere (die immediately BEFORE the k-th storage write / "
         "immediately AFTER the k-th engine-issued provider mutation), restart over the storage and provider contents "
         "of that instant, remaining user ops continue.  enum: for each generated history a dry run counts storage "
-        "writes Ns and provider mutations Np, then the history is re-run once per crash point (quick: 12 evenly "
-        "spread points; thorough: all Ns+Np).  Oracle (statement only): quiet within 400 rounds, both roots equal "
+        "writes Ns and provider mutations Np, then the history is re-run once per crash point (quick: all provider "
+        "points up to 16 + 8 evenly spread storage points; thorough: all Ns+Np); half of the enum histories are 'batch windows' "
+        "(user ops of a window precede its steps; no re-touch guard).  Oracle (statement only): quiet within 400 rounds, both roots equal "
         "modulo '.conflicted', every unreleased user-written version still present, one-sided => no '.conflicted' "
         "name anywhere.  Non-trivial = the crash hit a sync step that had already done >=1 provider or storage write; "
         "distinct = distinct trace digest (enum: distinct history).")
@@ -22,14 +23,16 @@ ASSUMPTIONS = [
     "a new process sees both providers' event cursors at 'latest' and restores its position from storage",
     "CRASH_THEN_TOUCH_NEW: after a crash arm no user op of that window touches an object created or written in that window (open findings KF-29, KF-27)",
     "CRASH_DIRMOVE_PATHSTYLE: no crash in a window that renames a folder when either side is path-style (open finding KF-30: the multi-row commit of a folder rename is not atomic)",
+    "PATH_REUSE is strict in every part (no re-use of a name vacated in the same window, not even id/id same-type): open finding KF-42 (a side-state takeover is committed as two separate row writes)",
+    "part enum, batch windows: all user ops of a window precede its engine steps, so no user op follows the crash inside its window and the re-touch guard is not applied there (write+rename, create+write of one object are generated)",
     "envelope hazards PATH_REUSE, DIRMOVE_ISOLATED, DIRMOVE_TOMB, XSIDE; the final tree is NOT required to equal the no-crash expectation (statement asks for convergence, no loss, no conflict artefacts)",
 ]
 
 
 def budget(tier):
     q = tier == "quick"
-    return [{"workers": 16, "examples": 160 if q else 5000},
-            {"part": "enum", "workers": 16, "examples": 4 if q else 60}]
+    return [{"workers": 16, "examples": 110 if q else 5000},
+            {"part": "enum", "workers": 16, "examples": 10 if q else 60}]
 
 
 def _arm(d, world, acts):
@@ -44,6 +47,10 @@ def _arm(d, world, acts):
     world.crash_mode = True
 
 
+def _strict(world):
+    world.strict_reuse = True       # KF-42: no name re-use inside a window anywhere in the crash domain
+
+
 def gen(d, tier):
     cfg = draw_cfg(d)
     two = d.chance(1, 3)
@@ -51,7 +58,7 @@ def gen(d, tier):
     if not two:
         cfg["origin"] = sides[0]
     acts, world = gen_history(d, cfg, sides=sides, n_ops=(2, 7) if tier == "quick" else (2, 12), with_base=d.bool(),
-                              w_extra=2, extra=_arm)
+                              w_extra=2, extra=_arm, world_init=_strict)
     return {"cfg": cfg, "acts": acts, "meta": {"excluded": dict(world.excluded)}}
 
 
@@ -62,6 +69,7 @@ def crash_guard_ok(trace, always=False):
     world = World(path_style=(cfg.get("L") == "path", cfg.get("R") == "path"))
     world.guard_retouch = True if always else False
     world.crash_mode = True
+    world.strict_reuse = True
     for a in trace["acts"]:
         if a[0] == "u":
             op = tuple(a[2:])
@@ -82,9 +90,11 @@ def crash_guard_ok(trace, always=False):
 
 
 def in_domain(trace):
+    if trace.get("batch"):
+        return batch_ok(trace)
     acts = [a for a in trace["acts"] if a[0] != "crash"]
     sides = (0, 1) if "origin" not in trace["cfg"] else (trace["cfg"]["origin"],)
-    if not envelope_ok(dict(trace, acts=acts), sides=sides):
+    if not envelope_ok(dict(trace, acts=acts), sides=sides, world_init=_strict):
         return False
     return crash_guard_ok(trace, always="point" in trace)
 
@@ -96,7 +106,8 @@ class Run(RestartRun):
             raise Stop(violation("exception_escaped", e))
 
     def at_quiet(self, rounds, final):
-        self.cplan.arm = None       # arms expire at a quiet point: a crash belongs to the window it was placed in
+        if not (self.trace.get("enum") or "point" in self.trace):
+            self.cplan.arm = None   # main part: arms expire at a quiet point (a crash belongs to the window it was placed in)
         self._check()
 
     def _check(self):
@@ -141,8 +152,58 @@ def gen_enum(d, tier):
     def init(world):
         world.guard_retouch = True      # a crash may land anywhere: the guard holds in every window
         world.crash_mode = True
+        world.strict_reuse = True
+    if d.bool():
+        return gen_batch(d, cfg, sides)
     acts, world = gen_history(d, cfg, sides=sides, n_ops=(2, 6), with_base=d.bool(), world_init=init)
-    return {"cfg": cfg, "acts": acts, "meta": {"excluded": dict(world.excluded)}}
+    return {"cfg": cfg, "enum": True, "acts": acts, "meta": {"excluded": dict(world.excluded)}}
+
+
+def gen_batch(d, cfg, sides):
+    """Batch windows: in every window all user ops come first (plain envelope, NO re-touch guard: write+rename,
+    create+write, rename+rename of one object are all fine), then engine steps, then settle.  Wherever the crash
+    lands, no user op follows it within its window, so the guard that fences KF-29/KF-27 is not needed."""
+    from ..gen import emit_base, emit_user_op, emit_macro
+    from ..model import World
+    world = World(path_style=(cfg["L"] == "path", cfg["R"] == "path"))
+    world.crash_anywhere = True
+    world.strict_reuse = True
+    acts = []
+    if d.bool():
+        emit_base(d, world, acts, d.choice(sides))
+    for _ in range(d.int(1, 3)):
+        n = d.int(1, 4)
+        done = tries = 0
+        while done < n and tries < 12:
+            tries += 1
+            if d.chance(1, 3):
+                done += emit_macro(d, world, acts, d.choice(sides))
+            elif emit_user_op(d, world, acts, d.choice(sides)) is not None:
+                done += 1
+        for _ in range(d.int(0, 6)):
+            acts.append(["step", d.choice(("EL", "ER", "S"))])
+        acts.append(["settle"])
+        world.settle()
+    return {"cfg": cfg, "enum": True, "batch": True, "acts": acts, "meta": {"excluded": dict(world.excluded)}}
+
+
+def batch_ok(trace):
+    from ..model import World
+    cfg = trace["cfg"]
+    stepped = False
+    for a in trace["acts"]:
+        if a[0] == "step":
+            stepped = True
+        elif a[0] == "settle":
+            stepped = False
+        elif a[0] == "u" and stepped:
+            return False
+
+    def init(world):
+        world.crash_anywhere = True
+        world.strict_reuse = True
+    sides = (0, 1) if "origin" not in cfg else (cfg["origin"],)
+    return envelope_ok(trace, sides=sides, world_init=init)
 
 
 def _with_crash(trace, kind, k):
@@ -161,9 +222,15 @@ def run_enum(trace):
     points = [("storage", k) for k in range(ns)] + [("provider", k) for k in range(np_)]
     import os
     tier_all = os.environ.get("VERIF_TIER") == "thorough"
-    if not tier_all and len(points) > 12:
-        stride = len(points) / 12.0
-        points = [points[int(i * stride)] for i in range(12)]
+    if not tier_all:
+        # quick: every provider-write crash point (few, and each one is a distinct half-done transfer) up to 16,
+        # plus 8 evenly spread storage-write points
+        sp, pp = points[:ns], points[ns:]
+        if len(sp) > 8:
+            sp = [sp[int(i * len(sp) / 8.0)] for i in range(8)]
+        if len(pp) > 16:
+            pp = [pp[int(i * len(pp) / 16.0)] for i in range(16)]
+        points = sp + pp
     fired = nontriv = 0
     for kind, k in points:
         r = Run(_with_crash(trace, kind, k))
@@ -174,7 +241,7 @@ def run_enum(trace):
             trace["point"] = [kind, k]
             o["detail"] = "[crash point %s #%d of Ns=%d Np=%d] %s" % (kind, k, ns, np_, o["detail"])
             return o
-    return ok(nontrivial=nontriv > 0, labels=["enum:histories"],
+    return ok(nontrivial=nontriv > 0, labels=["enum:histories", "enum:batch_windows" if trace.get("batch") else "enum:guarded"],
               counters={"enum:crash_runs": len(points), "enum:crashes_fired": fired, "enum:nontrivial_crash_runs": nontriv,
                         "enum:storage_points": ns, "enum:provider_points": np_})
 
